@@ -74,6 +74,7 @@ def observe_case(case):
         desc = describe(case)
     except Exception as e:   # rendering problem = machinery failure, reported as such
         return {'id': case['id'], 'desc': None, 'build': ['render-error', repr(e)], 'obs': []}
+    realrun.OBJPROTO = bool(cfg.get('objproto'))
     b = realrun.build(desc, include_source=cfg.get('include_source', False),
                       per_case_timeout=20.0 * cfg.get('timeout_scale', 1))
     if b[0] != 'ok':
